@@ -48,21 +48,9 @@ Matches(pattern, path) ==
        THEN Matches(Tail(pattern), path) \/ (path # <<>> /\ Matches(pattern, Tail(path)))
        ELSE path # <<>> /\ SegMatches(Head(pattern), Head(path)) /\ Matches(Tail(pattern), Tail(path))
 
-\* Configuration::should_apply_rule and RuleMetadata::should_apply: the same combination of the two lists
-ShouldApply(path, applyPatterns, skipPatterns) ==
-  /\ (applyPatterns = <<>> \/ \E i \in DOMAIN applyPatterns : Matches(applyPatterns[i], path))
-  /\ ~\E i \in DOMAIN skipPatterns : Matches(skipPatterns[i], path)
-
-\* ---------------------------------------------------------------------------------------- the pipeline, abstractly
-\* A configuration: top-level filters and a pipeline of rules, each with its filters; a rule can be deleted (on = FALSE).
-\*   cfg = [apply, skip, rules : Seq of [on, apply, skip]]
-\* The effect of rule k is abstract: Effect(k, content). A file's content is what it was given (`src`) with the effects of
-\* the rules that ran, in pipeline order.
-RuleRuns(cfg, k, path) ==
-  cfg.rules[k].on /\ ShouldApply(path, cfg.apply, cfg.skip) /\ ShouldApply(path, cfg.rules[k].apply, cfg.rules[k].skip)
-RanSet(cfg, path) == {k \in DOMAIN cfg.rules : RuleRuns(cfg, k, path)}
-Delete(cfg, k) == [cfg EXCEPT !.rules[k].on = FALSE]
-WithFilter(cfg, k, a, s) == [cfg EXCEPT !.rules[k].apply = a, !.rules[k].skip = s]
+\* Configuration::should_apply_rule and RuleMetadata::should_apply, the abstract pipeline (RuleRuns, RanSet, Delete,
+\* WithFilter) and the proofs of the theorems below for ANY matching relation live in FiltersCore.tla
+INSTANCE FiltersCore WITH Matches <- Matches
 
 \* The output of a file is a function of (its source, the set of rules that ran): rules only see the file they run on.
 \* Theorems (model-checked by MC_Filters over the bounded universe):
